@@ -91,3 +91,43 @@ Theorem C03_eviction_tables_are_translated :
   /\ GraphGen.graph_multiplier = 2 /\ GraphGen.fresh_counts_per_call = true /\ GraphGen.count_rule = "path-count-dp".
 Proof. repeat split; reflexivity. Qed.
 Print Assumptions C03_eviction_tables_are_translated.
+
+(* ---------- two cached columns that share an upstream function (finding F10) ----------
+   A request that finds its shard neither in the RAM table nor on disk runs the value pass of EVERY entry of the shard through the
+   compiled graph of its own column.  Hence, in a call that asks for two columns c1, c2 of one CacheColumns layer (both cold), a user
+   function that both columns compute from runs once per column for every entry of the shard - not once per call.  [uses c] are the
+   functions the value pass of column c executes; [executed] reads them off the events. *)
+Definition executed (uses : nat -> list string) (ev : list ColStore.cevent) : list (string * val) :=
+  flat_map (fun e => match e with ColStore.CValue c k => map (fun f => (f, k)) (uses c) | _ => [] end) ev.
+
+Theorem C03_column_cold_miss_runs_whole_shard :
+  forall (sorted : list val -> list val) (get_hash : nat -> val -> option nhash) (get_value : nat -> val -> option val)
+         (h : nat -> val -> nhash),
+  (forall c k x, get_hash c k = Some x -> x = h c k) ->
+  forall col size key keys st r st' ev ks c i,
+  ColumnsFacts.exact_key pyeq key -> ColumnsGen.get_shard pyeq sorted size key keys = inr (ks, c, i) ->
+  get_hash col key = Some (h col key) -> (forall k, get_hash col k <> None) -> (forall k, get_value col k <> None) ->
+  ColStore.ram_get hpyeq st (h col key) = None -> ColStore.disk_get heqb st (ColumnsFacts.compound (map (h col) ks)) = None ->
+  Columns.column_request hpyeq heqb pyeq sorted get_hash get_value col size key keys st = (r, st', ev) ->
+  forall k, In k ks -> In (ColStore.CValue col k) ev.
+Proof.
+  intros sorted get_hash get_value h H1.
+  refine (ColumnsFacts.column_cold_miss_runs_whole_shard hpyeq heqb pyeq sorted get_hash get_value h
+            (fun c k => match get_value c k with Some x => x | None => VNone end) EqFacts.hpyeq_refl H1 _).
+  intros c k x E. rewrite E. reflexivity.
+Qed.
+Print Assumptions C03_column_cold_miss_runs_whole_shard.
+
+Theorem C03_two_columns_run_a_shared_function_twice :
+  forall (uses : nat -> list string) (f : string) (c1 c2 : nat) (k : val) (ev1 ev2 : list ColStore.cevent),
+  In f (uses c1) -> In f (uses c2) -> In (ColStore.CValue c1 k) ev1 -> In (ColStore.CValue c2 k) ev2 ->
+  exists a b c, executed uses (ev1 ++ ev2) = a ++ (f, k) :: b ++ (f, k) :: c.
+Proof.
+  intros uses f c1 c2 k ev1 ev2 H1 H2 E1 E2. unfold executed. rewrite flat_map_app.
+  assert (forall c ev, In f (uses c) -> In (ColStore.CValue c k) ev ->
+            exists a b, flat_map (fun e => match e with ColStore.CValue c k => map (fun f => (f, k)) (uses c) | _ => [] end) ev = a ++ (f, k) :: b) as Hone.
+  { intros c ev Hf He. apply in_split. apply in_flat_map. exists (ColStore.CValue c k). split; [exact He|]. apply in_map_iff. exists f. split; [reflexivity|exact Hf]. }
+  destruct (Hone _ _ H1 E1) as (a1 & b1 & ->). destruct (Hone _ _ H2 E2) as (a2 & b2 & ->).
+  exists a1, (b1 ++ a2), b2. rewrite <- app_assoc. cbn. rewrite <- app_assoc. reflexivity.
+Qed.
+Print Assumptions C03_two_columns_run_a_shared_function_twice.
